@@ -6,6 +6,12 @@ import os
 VERIF = os.path.dirname(os.path.dirname(os.path.abspath(__file__)))
 
 CHECKS = {
+    'C07': dict(
+        level='exploration', engine='ENUM',
+        technique='bounded-exhaustive enumeration of token trees x column offsets x 4 renderers; independent tokenizer + re-parse as oracle',
+        text='All trees with <=5 (thorough 6) nodes and all two-tree forests with <=4 (5) nodes over 21 lexical-class leaves (long/hyphenated tokens, literals and quoted symbols with blanks, parentheses, semicolons, newlines, doubled quotes, comments, empty lists) plus a column sweep that puts every leaf class at every start column 3..95 are parsed by ddSMT and rendered by all four real renderers; every rendering must have the source token sequence (independent tokenizer) and re-parse to the same structure. The space is enumerated completely (360 k sources, 1.4 M renderings quick).',
+        note='Trusted: reference tokenizer ddv/sexp.py; leaves are class representatives; sources go through ddSMT\'s own reader (C08 checks that reader).',
+        design='3/C07'),
     'C08': dict(
         level='exploration', engine='ENUM',
         technique='bounded-exhaustive enumeration of lexeme sequences x separators x nesting against an independent reference reader',
